@@ -146,6 +146,13 @@ class Ctx:
         self.findings = [f for f in load_findings().get("findings", []) if f.get("property") == pid]
         self.work = os.path.join(WORK, pid)
         os.makedirs(self.work, exist_ok=True)
+        # scratch case files of earlier runs of this check (nothing in .work is needed between runs)
+        for f in os.listdir(self.work):
+            if f.endswith((".v", ".vo", ".vos", ".vok", ".glob", ".aux")):
+                try:
+                    os.remove(os.path.join(self.work, f))
+                except OSError:
+                    pass
         os.makedirs(EVID, exist_ok=True)
         self.thorough = tier == "thorough"
         # replays of earlier runs of this property are stale: start clean
